@@ -84,7 +84,7 @@ impl<M: SpaceModel> Sweep for SpaceSweep<M> {
                 }
             }
             Ok(None) => {}
-            Err(p) => ctx.violation("panic", p),
+            Err(p) => ctx.violation(&crate::engine::panic_class(&p), p),
         }
         true
     }
@@ -127,7 +127,7 @@ impl<M: SpaceModel> Sweep for SpaceSweep<M> {
                                     h,
                                     Step {
                                         digest: 0,
-                                        viols: vec![("panic".to_string(), p)],
+                                        viols: vec![(crate::engine::panic_class(&p), p)],
                                         nontrivial: None,
                                         terminal: true,
                                     },
